@@ -151,9 +151,38 @@
         [infoset_of_string] normalizes line ends BEFORE parsing and the read-back lemmas of (f), (k) speak
         about the rendering itself; it is decidable on the rendering ([contains c_cr (render d c) = false]) and
         holds for every oracle whose white-space choices avoid CR ([spec_parse_render_nonvacuous]).
-    Not proved: the MODEL half of [parse_render] -- the infoset that the model of the DOM builds from an
-    accepted text is the one [infoset_of_string] computes (for all documents; named [parse_render_partial] in
-    notes/wf_STATUS.md) -- and renderings with carriage returns in white space for (m).
+    (n) round 3 -- THE INFORMATION SET THAT THE DOM ACCESSORS EXPOSE (Model/DomView.v; Proofs/DomView*.v).
+        [Model.DomView.dom_dump merged doc] is a model of what harness/src/domains/wfdoc.rs prints for the document that
+        the model of from_raw builds: document properties, the document type declaration with its notations and
+        unparsed entities, the element tree with the rows of [namespace_attributes()] + [attributes()]
+        ([normalized_value] with entity expansion and the declared type, [specified], defaults from the ATTLIST
+        declarations), children in the raw view (Text / CDATA section / character reference / entity reference with its
+        value) and in the merged-text view (one ExpandedText node per maximal run).  checks/C01.py runs the extracted
+        model (domain `wfview`) against the real crates on every generated text and diffs the dumps, listed findings
+        included.  [dom_view merged doc : infoset] is that dump as tokens of Spec/Infoset.v (the raw dump after the
+        merging the check applies).
+        Rung (i), DOCUMENTS WITHOUT A DOCUMENT TYPE DECLARATION:
+        [dom_view_is_infoset_nodoctype_partial] -- for EVERY string s that the model of from_raw accepts completely,
+        that has no DOCTYPE and is outside finding D04, the specification parses s ([parse_document s = Some xd],
+        [check_doc xd = inr root]) and
+            dom_view false doc = doc_tokens xd root            (raw view: the information set of the text)
+            dom_view true  doc = doc_tokens2 xd root           (merged view: the same with a text token for EVERY maximal
+                                                                 run of character data that has an item, also an empty one:
+                                                                 finding WF14 is part of the statement)
+        and [doc_tokens2 xd root = doc_tokens xd root] when it has no empty text token ([merged_view_without_empty_text]).
+        Elements to any depth, attributes in any order with any quoting and reference form (the rows sorted by Rust's
+        order on (name, token) are the specification's attribute set sorted by name: names are distinct because
+        XmlElement::node refuses duplicates), character data in any mixture of literal text / character references /
+        predefined entity references / CDATA sections, comments, PIs, prolog and epilog Misc, XML declaration.
+        [C01_dom_view_is_denote_nodoctype_partial] -- for every valid abstract document d without DOCTYPE, every oracle c:
+            from_raw (render d c) = OOk ([], doc)  ->  dom_view false doc = denote d
+            Known_WF14 d = false                   ->  dom_view true doc = denote d
+        where [Known_WF14 d] (decidable on d) says that the merged view of the implementation, [denote2 d], has an empty
+        text node, or that d has an empty text child (for which the relation `reads` of (f) does not determine the
+        tree that is read back).  No hypothesis about carriage returns: the theorem speaks about the rendering itself
+        (WF16 concerns literal CRs, which [render] writes in markup white space only).
+    Not proved: (n) for documents WITH a document type declaration, and renderings with carriage returns in white
+    space for (m).
     This is covered by checks/C01.py, which evaluates wf (render d c) and
     infoset_of_string (render d c) = denote d with the extracted functions on every generated case,
     compares with the real crates, and cross-checks the specification against expat. *)
@@ -166,7 +195,8 @@ From XmlRs Require Model.ParseActions Model.Info Proofs.ParseInvElem Proofs.XmlW
   Proofs.DisplayLex Proofs.XmlWFSyntaxDtd Proofs.XmlWFSyntaxDtdDoc Proofs.XmlWFSyntaxConvDtd Proofs.XmlWFSyntaxConvDtdAtt
   Proofs.XmlWFSyntaxConvDtdElem Proofs.XmlWFSyntaxConvDtdDoc Proofs.XmlWFSyntaxConvDtdCheck
   Proofs.XmlWFSyntaxRenderDtd Proofs.XmlWFSyntaxRenderDtdElem Proofs.XmlWFSyntaxRenderDtdDoc
-  Proofs.XmlWFSyntaxRenderDtdCheck Proofs.XmlWFSyntaxRenderDtdWf Proofs.XmlWFSyntaxRenderTokens.
+  Proofs.XmlWFSyntaxRenderDtdCheck Proofs.XmlWFSyntaxRenderDtdWf Proofs.XmlWFSyntaxRenderTokens
+  Model.DomView Proofs.DomViewBase Proofs.DomViewDoc Proofs.DomViewRender Proofs.DomViewC01.
 Import ListNotations.
 
 (** every oracle is an admissible choice of surface forms *)
@@ -433,6 +463,40 @@ Example spec_parse_render_nonvacuous :
   contains c_cr (render ex_adoc_dtd (fun _ => 0%N)) = false /\ contains c_cr (render ex_adoc_dtd (fun p => (7 * N.of_nat (length p)) mod 3)%N) = false.
 Proof. split; vm_compute; reflexivity. Qed.
 
+
+(** ** (n) the information set exposed through the DOM accessors *)
+Theorem dom_view_is_infoset_nodoctype_partial : forall (s : str) (doc : Info.document),
+  Info.from_raw s = Info.OOk ([], doc) -> XmlWFSyntaxCheck.nodoctype s = true -> XmlWFSyntaxCheck.KnownD04_nodoctype s = false ->
+  exists xd root, parse_document s = Some xd /\ unsupported xd = false /\ check_doc xd = inr root /\
+    DomView.dom_view false doc = doc_tokens xd root /\ DomView.dom_view true doc = DomViewBase.doc_tokens2 xd root.
+Proof. exact DomViewDoc.dom_view_nodoctype. Qed.
+
+Theorem merged_view_without_empty_text : forall (xd : xdoc) (root : xcontent),
+  forallb DomViewBase.nonempty_text (DomViewBase.doc_tokens2 xd root) = true -> DomViewBase.doc_tokens2 xd root = doc_tokens xd root.
+Proof. exact DomViewBase.doc_tokens2_same. Qed.
+
+Theorem merged_view_drops_to_infoset : forall (xd : xdoc) (root : xcontent),
+  DomViewBase.drop_empty (DomViewBase.doc_tokens2 xd root) = doc_tokens xd root.
+Proof. exact DomViewBase.doc_tokens2_drop. Qed.
+
+Theorem C01_dom_view_is_denote_nodoctype_partial : forall (d : adoc) (c : choices) (doc : Info.document),
+  valid d = true -> a_doctype d = None -> Info.from_raw (render d c) = Info.OOk ([], doc) ->
+  DomView.dom_view false doc = Infoset.denote d /\ (DomViewRender.Known_WF14 d = false -> DomView.dom_view true doc = Infoset.denote d).
+Proof.
+  intros d c doc Hv Hdt H. destruct (DomViewC01.dom_view_render_nodoctype d c doc Hv Hdt H) as (H1 & _ & H3). split; assumption.
+Qed.
+
+Example dom_view_nodoctype_nonvacuous :
+  valid ex_adoc = true /\ a_doctype ex_adoc = None /\ DomViewRender.Known_WF14 ex_adoc = false
+  /\ exists doc, Info.from_raw (render ex_adoc (fun p => (7 * N.of_nat (length p)) mod 5)%N) = Info.OOk ([], doc)
+                 /\ DomView.dom_view true doc = Infoset.denote ex_adoc.
+Proof.
+  split; [vm_compute; reflexivity|]. split; [reflexivity|]. split; [vm_compute; reflexivity|].
+  destruct (rendered_nodoctype_is_accepted_partial ex_adoc (fun p => (7 * N.of_nat (length p)) mod 5)%N) as [doc Hdoc]; [vm_compute; reflexivity|reflexivity|].
+  exists doc. split; [exact Hdoc|].
+  refine (proj2 (C01_dom_view_is_denote_nodoctype_partial ex_adoc _ doc _ eq_refl Hdoc) _); vm_compute; reflexivity.
+Qed.
+
 Example rendered_nontrivial :
   comment_ok [32;97;45;98;32]%N = true /\ pi_ok [112;105]%N (Some [120;63;32;62]%N) = true.
 Proof. split; vm_compute; reflexivity. Qed.
@@ -466,3 +530,7 @@ Print Assumptions rendered_doctype_is_read_partial.
 Print Assumptions render_wf_partial.
 Print Assumptions rendered_is_accepted_partial.
 Print Assumptions spec_parse_render_partial.
+Print Assumptions dom_view_is_infoset_nodoctype_partial.
+Print Assumptions merged_view_without_empty_text.
+Print Assumptions merged_view_drops_to_infoset.
+Print Assumptions C01_dom_view_is_denote_nodoctype_partial.
